@@ -73,76 +73,13 @@ def ineffective_store(target: ast.AST, name_is_mask=None) -> Optional[str]:
         return None
 
 
-def _temperature_missing_mask(rd: ReachingDefs, st, mask_expr: ast.AST, frame: str) -> bool:
-    """Does mask_expr (evaluated at st) derive from <frame>["temperature"] missing-ness?"""
-    for e in backward_slice_exprs(rd, st, mask_expr, depth=4):
-        for n in ast.walk(e):
-            if isinstance(n, ast.Call):
-                fn = unparse(n.func)
-                args_txt = " ".join(unparse(a) for a in n.args)
-                recv = unparse(n.func.value) if isinstance(n.func, ast.Attribute) else ""
-                if isinstance(n.func, ast.Attribute) and n.func.attr in ("isna", "isnull") and "temperature" in recv and frame in recv:
-                    return True
-                if fn in ("np.isnan", "pd.isna", "pd.isnull") and "temperature" in args_txt and frame in args_txt:
-                    return True
-            if isinstance(n, ast.UnaryOp) and isinstance(n.op, ast.Invert) and isinstance(n.operand, ast.Call):
-                c = n.operand
-                fn = unparse(c.func)
-                recv = unparse(c.func.value) if isinstance(c.func, ast.Attribute) else ""
-                args_txt = " ".join(unparse(a) for a in c.args)
-                if isinstance(c.func, ast.Attribute) and c.func.attr in ("notna", "notnull") and "temperature" in recv and frame in recv:
-                    return True
-                if fn in ("np.isfinite", "pd.notna", "pd.notnull") and "temperature" in args_txt and frame in args_txt:
-                    return True
-    return False
-
-
-def _is_nan(e: ast.AST) -> bool:
-    return unparse(e) in ("np.nan", "numpy.nan", "float('nan')", "math.nan", "np.NaN", "pd.NA", "None", "float(\"nan\")")
-
-
-def _effective_nan_store(rd: ReachingDefs, st: ast.AST, frame: str) -> bool:
-    """Is st an effective store of NaN into column 'observed' of `frame` on rows where temperature is missing?"""
-    if not isinstance(st, ast.Assign) or len(st.targets) != 1:
-        return False
-    t = st.targets[0]
-    nm = _name_mask_resolver(rd, st)
-    # form a: frame.loc[M, "observed"] = nan   (also ["observed"] list)
-    if isinstance(t, ast.Subscript) and isinstance(t.value, ast.Attribute) and t.value.attr == "loc" and unparse(t.value.value) == frame \
-            and isinstance(t.slice, ast.Tuple) and len(t.slice.elts) == 2:
-        m, c = t.slice.elts
-        col_ok = const_str(c) == "observed" or (isinstance(c, (ast.List, ast.Tuple)) and [const_str(x) for x in c.elts] == ["observed"])
-        return col_ok and _is_nan(st.value) and _temperature_missing_mask(rd, st, m, frame)
-    # form b: frame["observed"] = frame["observed"].where(~M) | .mask(M) | np.where(M, nan, frame["observed"])
-    if isinstance(t, ast.Subscript) and unparse(t.value) == frame and const_str(t.slice) == "observed":
-        v = st.value
-        if isinstance(v, ast.Call) and isinstance(v.func, ast.Attribute) and v.func.attr in ("where", "mask") and v.args:
-            recv = unparse(v.func.value)
-            if recv in (f"{frame}['observed']", f"{frame}.observed"):
-                m = v.args[0]
-                other_ok = len(v.args) < 2 or _is_nan(v.args[1])
-                if v.func.attr == "mask":
-                    return other_ok and _temperature_missing_mask(rd, st, m, frame)
-                # where keeps rows where cond is True: cond must be the complement of missing
-                if isinstance(m, ast.UnaryOp) and isinstance(m.op, ast.Invert):
-                    return other_ok and _temperature_missing_mask(rd, st, m.operand, frame)
-                if isinstance(m, ast.Call) and isinstance(m.func, ast.Attribute) and m.func.attr in ("notna", "notnull") and "temperature" in unparse(m.func.value):
-                    return other_ok
-                return False
-        if isinstance(v, ast.Call) and unparse(v.func) == "np.where" and len(v.args) == 3:
-            return _is_nan(v.args[1]) and unparse(v.args[2]) in (f"{frame}['observed']", f"{frame}.observed") \
-                and _temperature_missing_mask(rd, st, v.args[0], frame)
-    return False
-
-
 def run(chk):
     chk.explanation = (
         "Effect lint for stores that go into a temporary (boolean-mask selection yields a copy), must-pass-through of an "
         "*effective* NaN store into `observed` of the dropped-rows frame under the valuation mask_flag=True, and def-use checks "
         "that predictions are produced only for rows that survived the completeness filters and are left-joined onto them.")
     chk.trusted += FACTS[:2]
-    chk.not_decided += ["rows whose temperature is +-inf rather than missing (the masking statement and the rule speak of missing temperature)",
-                        "billing aggregation sums (C19)"]
+    chk.not_decided += ["billing aggregation sums (C19)"]
     r1 = chk.rule("R07.1", "no store on the daily/billing predict path writes into a temporary (mask-selected copy)", 1)
     r2 = chk.rule("R07.2", "every path of _predict with the masking flag on passes an effective NaN store into observed[temperature missing] of the frame that is concatenated into the result; flag default True; no caller turns it off", 3)
     r3 = chk.rule("R07.3", "predictions are built for and left-joined onto rows that survived dropna + finite filters (incl. observed when present); the dropped rows are the exact complement", 4)
@@ -206,14 +143,14 @@ def run(chk):
         seen_msgs = set()
         for o in outs:
             for ob, msg in judge_predict(o):
-                rule = {"mask": r2, "lost": r1, "kept": r3, "rows": r3}[ob]
-                key = {"mask": f"{fi.key}|mask-observed-where-temperature-missing", "lost": f"{fi.key}|store-into-temporary",
+                rule = {"mask": r2, "mask-nonfinite": r2, "lost": r1, "kept": r3, "rows": r3}[ob]
+                key = {"mask": f"{fi.key}|mask-observed-where-temperature-missing", "mask-nonfinite": f"{fi.key}|mask-observed-where-temperature-not-finite", "lost": f"{fi.key}|store-into-temporary",
                        "kept": f"{fi.key}|predicts-only-complete-rows", "rows": f"{fi.key}|result=concat(kept+pred, dropped)"}[ob]
                 if (key, msg[:80]) in seen_msgs:
                     continue
                 seen_msgs.add((key, msg[:80]))
                 rule.require(False, key, fi.where(), f"{fi.key}: {msg}", sample={"function": fi.key, "scenario": {k_: o[k_] for k_ in ("with_observed", "mask_on", "decisions")}})
-        for key_, rule in ((f"{fi.key}|mask-observed-where-temperature-missing", r2), (f"{fi.key}|store-into-temporary", r1),
+        for key_, rule in ((f"{fi.key}|mask-observed-where-temperature-missing", r2), (f"{fi.key}|mask-observed-where-temperature-not-finite", r2), (f"{fi.key}|store-into-temporary", r1),
                            (f"{fi.key}|predicts-only-complete-rows", r3), (f"{fi.key}|result=concat(kept+pred, dropped)", r3)):
             rule.inst(key_)
         r3.inst(f"{fi.key}|scenarios={len(outs)}")
